@@ -133,6 +133,11 @@ func genHtml(r *Rng, n int) string {
 		b.WriteString("<!doctype html PUBLIC \"-//W3C//DTD HTML 4.01//EN\">")
 	case 3:
 		b.WriteString(" \n<!DOCTYPE html>")
+	case 4:
+		b.WriteString("<!DOCTYPE html><!-- saved from url=(0014)about:internet --><!--[if lt IE 9]><p>old</p><![endif]-->\n<!-- third -->")
+	case 5:
+		// UTF-8 after more than a kilobyte of ASCII (nothing in the first 1024 bytes says which encoding this is)
+		b.WriteString("<!DOCTYPE html><html><head><style>" + strings.Repeat("p > a { color: red } ", 60+r.Intn(40)) + "</style></head><body title=\"caf\u00e9\"><p>\u00fcn\u00ef \u65e5\u672c</p><!-- \u00e9 -->")
 	default:
 		b.WriteString("<!DOCTYPE html>")
 	}
